@@ -127,7 +127,25 @@ def generate(problems):
             acts = [a for a in made[0]._actions if a.dest == "x"]
             flags.append(bool(getattr(acts[0], "_enable_path", False)) if acts else False)
         rows.append((label, tyclass, flags[0] if flags else False, flags[1] if len(flags) > 1 else False))
+    # --- the statements of _run_component and the parser-building calls of _add_component_to_parser, as they stand -----------
+    def norm(n):
+        return ast.unparse(n).replace('"', "'")
+
+    run_stmts = [norm(st) for st in fn[0].body] if fn else []
+    add_fn = [n for n in ast.walk(tree) if isinstance(n, ast.FunctionDef) and n.name == "_add_component_to_parser"]
+    add_calls = []
+    if not add_fn:
+        problems.append("CliTables: _cli._add_component_to_parser not found")
+    else:
+        wanted = {"add_class_arguments", "add_method_arguments", "add_function_arguments", "add_subcommands", "add_subcommand", "add_argument"}
+        calls = [n for n in ast.walk(add_fn[0]) if isinstance(n, ast.Call) and isinstance(n.func, ast.Attribute) and n.func.attr in wanted]
+        calls.sort(key=lambda n: (n.lineno, n.col_offset))
+        add_calls = [norm(c) for c in calls]
+        kw = [norm(n) for n in ast.walk(add_fn[0]) if isinstance(n, (ast.Assign, ast.AnnAssign)) and "kwargs" in norm(n).split("=")[0]]
+        add_calls = kw + add_calls
     body = "namespace Jap.Gen\n"
+    body += "def runComponentStmts : List String := %s\n" % lean_str_list(run_stmts)
+    body += "def addComponentCalls : List String := %s\n" % lean_str_list(add_calls)
     body += "def enablePathExpr : List String := %s\n" % lean_str_list(ep_exprs)
     body += "def isOptionalCalls : List String := %s\n" % lean_str_list(opt_calls)
     body += "def autoCliSubConfigs : List Bool := [%s]\n" % ", ".join("true" if b else "false" for b in sub_cfg)
